@@ -119,6 +119,7 @@ func modelTest() modelTestResult {
 		{23, "lock-order inversion (deadlock)", "plain"}, {24, "coalescing with a capacity-1 channel, 3 waiters (wrong result)", "plain"}, {25, "first error found by concurrent workers (schedule-dependent result)", "plain"},
 		{26, "select on found/done when both are ready (random pick: wrong result)", "plain"},
 		{28, "sync.Cond waited on with if instead of for (wrong result after Broadcast)", "plain"},
+		{29, "n.CompareAndSwap(n.Load(), n.Load()+1) assumed to succeed: race-free read-modify-write inside one statement (wrong result; needs a yield point inside the expression)", "plain"},
 		{27, "TTL cache whose ticker-driven janitor evicts in two steps (wrong result; needs simulated time to pass)", "plain"}}
 	for _, d := range defects {
 		found := ""
